@@ -1889,6 +1889,7 @@ func c04Corpus() []c04Case {
 	narrow := bearer("narrow:aud", "narrow:scope", "up")
 	dupDigestBasic := c04Req{Auth: "dup:digest+basic", BasicUser: "alice", BasicPass: "wrong", Body: "none:nobody", Sw: "up",
 		AuthTok: &c04Token{JWT: "valid", Intro: "active", Sub: "alice", ISub: "bob"}}
+	inactiveSess := c04Req{Auth: "absent", Body: "none:nobody", Cookie: "inactive-alice", Sw: "up"}
 	dupBasicDigest := dupDigestBasic
 	dupBasicDigest.Auth = "dup:basic+digest"
 
@@ -1929,6 +1930,9 @@ func c04Corpus() []c04Case {
 		one("direct", c04Req{Auth: "absent", Body: "none:nobody", Sw: "up", XTok: valid.AuthTok}, c04Authn{Type: "jwt", Remote: "up", Source: "custom"}, jwtA, anon),
 		one("direct", c04Req{Auth: "basic:pair", BasicUser: "alice", BasicPass: "se:cret", Body: "none:nobody", Sw: "up"}, c04Authn{Type: "basic_auth", User: "alice", Pass: "se:cret"}, anon),
 		one("direct", bearer("noclaims", "active", "up"), jwtA, anon),
+		// a payload cached by an instance without session_lifespan is asserted by the one with it (fix abc25e7)
+		{Chain: []c04Authn{{Type: "generic", Remote: "up", Lifespan: true, TTL: "rule:5m", ProtoFB: true}, {Type: "generic", Remote: "up", TTL: "rule:5m"}},
+			Entry: "direct", Steps: []c04Req{inactiveSess, inactiveSess}},
 	}
 }
 
